@@ -127,6 +127,28 @@ MUTS = {
         isinstance(index, slice) and index.step not in (None, 1)):
       raise base.WritePermissionError(
           self._error_message('Cannot modify List item by __setitem__ while '"""),
+ 'M23-dict-constructor-seals-shallow (seeded C08-11)': ('pyglove/core/symbolic/dict.py', """    self.set_accessor_writable(accessor_writable)
+    if sealed:
+      self.seal(True)""", """    self.set_accessor_writable(accessor_writable)
+    if sealed:
+      self.sym_seal(True)"""),
+ 'M24-list-constructor-seals-shallow (seeded C08-11)': ('pyglove/core/symbolic/list.py', """    self._onchange_callback = onchange_callback
+    if sealed:
+      self.seal(True)""", """    self._onchange_callback = onchange_callback
+    if sealed:
+      self.sym_seal(True)"""),
+ 'M25-object-constructor-seals-shallow (EQUIVALENT on its own, the attribute Dict is built with sealed=sealed; expected exit 0)': ('pyglove/core/symbolic/object.py', """    self._on_init()
+    if sealed:
+      self.seal(True)""", """    self._on_init()
+    if sealed:
+      self.sym_seal(True)"""),
+ 'M26-sealed-value-with-a-parent-shared-not-copied (seeded C08-12)': ('pyglove/core/symbolic/base.py', """        value = value.clone()
+
+    if isinstance(value, TopologyAware):""", """        if value.sym_sealed:
+          return value
+        value = value.clone()
+
+    if isinstance(value, TopologyAware):"""),
 }
 only = sys.argv[1:]
 for name, (path, old, new) in MUTS.items():
